@@ -407,3 +407,8 @@ from sa import exits as _exits_ms  # noqa: E402
 
 RULES.append(Rule("C10.MS", _exits_ms.make_state_rule("C10", "C10.MS", _exits_ms.SCOPES.get("C10", [])), floor=1,
                   doc="no hidden module-level state on the anchored path: results do not depend on the history of the process (E17)"))
+
+from sa import exits as _exits_nw  # noqa: E402
+
+RULES.append(Rule("C10.NW", _exits_nw.make_narrowing_rule("C10", "C10.NW", _exits_nw.SCOPES.get("C10", [])), floor=1,
+                  doc="no new narrowing cast (8/16-bit element types) on the anchored path: coordinates, lengths and indices do not wrap (E18)"))
